@@ -947,6 +947,14 @@ func (x *Exec) run(s *State, kind string, op Op, caseID int, step int) bool {
 		plan = append(plan, planned{tx: x.priceTx(n, spec, x.gasFor("small", needT)), kind: kind, role: "first"})
 		nonce++
 	}
+	// "poor sender": an operation that is going to run out of gas, sent by an account that holds EXACTLY what the transaction
+	// may cost at most (amount + tips + maximum fee) - a plain transfer in front of it, in the same block, takes the rest away.
+	// Whatever is charged beyond the maximum fee would drive the balance below zero.
+	poor := false
+	if op.Pair == "no" && pf == "" && (op.Gas == "small" || op.Gas == "smallhalf" || op.Gas == "smallrem") && from != kFunder && need > 1 && x.Rnd.Intn(2) == 0 {
+		poor = true
+		nonce++ // the transfer takes the sender's next nonce, the operation the one after
+	}
 	spec := x.buildTx(s, kind, op, from, nonce)
 	if x.Rnd.Intn(5) == 0 {
 		spec.Tips = sim.Dna(3, 10)
@@ -965,7 +973,39 @@ func (x *Exec) run(s *State, kind string, op Op, caseID int, step int) bool {
 		plan = append(plan, planned{tx: prefund, plain: true, role: "mid"})
 		x.Stats["prefunded_same_block"]++
 	}
-	plan = append(plan, planned{tx: x.priceTxRem(n, spec, g, op.Gas), kind: kind, role: role})
+	mainTx := x.priceTxRem(n, spec, g, op.Gas)
+	if poor {
+		bal := n.App.State.GetBalance(x.W.Addrs[from])
+		keep := new(big.Int).Add(mainTx.AmountOrZero(), mainTx.TipsOrZero())
+		keep.Add(keep, mainTx.MaxFeeOrZero())
+		to := x.W.Addrs[kFunder]
+		amount := new(big.Int).Sub(bal, keep)
+		maxFee := sim.Dna(1, 1)
+		var drain *types.Transaction
+		ok := false
+		for i := 0; i < 8 && amount.Sign() > 0; i++ {
+			drain = x.W.Tx(sim.TxSpec{From: from, To: &to, Type: types.SendTx, Amount: amount, MaxFee: maxFee, Nonce: nonce - 1})
+			f := n.SizeFee(drain)
+			want := new(big.Int).Sub(new(big.Int).Sub(bal, keep), f)
+			if want.Sign() > 0 && want.Cmp(amount) == 0 && f.Cmp(maxFee) == 0 {
+				ok = true
+				break
+			}
+			amount, maxFee = want, f
+		}
+		if ok {
+			plan = append(plan, planned{tx: drain, plain: true, role: "mid"})
+			role = "tail"
+			x.Stats["poor_sender"]++
+		} else {
+			// (not realisable in this state: the operation goes alone, with the nonce it would have had)
+			poor = false
+			nonce--
+			spec = x.buildTx(s, kind, op, from, nonce)
+			mainTx = x.priceTxRem(n, spec, g, op.Gas)
+		}
+	}
+	plan = append(plan, planned{tx: mainTx, kind: kind, role: role})
 	nonce++
 	if tail != "" {
 		// something changes a balance OUTSIDE the contract environment ...
@@ -1028,7 +1068,7 @@ func (x *Exec) run(s *State, kind string, op Op, caseID int, step int) bool {
 	preHeight := n.Chain.Head.Height()
 	fpg := new(big.Int).Set(n.App.State.FeePerGas())
 	var blk *types.Block
-	if tail != "" || op.Pair == "samerin" {
+	if tail != "" || op.Pair == "samerin" || poor {
 		// the proposer chooses the order of the body: the repository's own block assembly for a given body
 		if pre == nil {
 			pre = x.snapshot(s)
